@@ -587,7 +587,7 @@ def get_bs_cached(cols, basis_dir=None, legendre_orders=[0, 2],
 
     if basis_dir is not None:
         path_to_basis_file = os.path.join(basis_dir, basis_name)
-        np.save(path_to_basis_file, _basis)
+        abel.transform._save_basis(path_to_basis_file, _basis)
         if verbose:
             print("linbasex basis saved for later use to {}"
                   .format(path_to_basis_file))
